@@ -90,7 +90,7 @@ pub fn run(ctx: &mut Ctx) {
     let scratch = Scratch::new();
     let keys = all_keys(3);
     let ns = namespace(1);
-    for case in ctx.cases(200, 30_000) {
+    for case in ctx.cases(2_000, 100_000) {
         let mut rng = ctx.rng(case);
         ctx.eval();
         match case % 4 {
@@ -215,6 +215,7 @@ fn filter_text_case(ctx: &mut Ctx, case: u64, rng: &mut Rng) {
             }
         }
         ctx.nontrivial(h64(text.as_bytes()));
+        ctx.eval();
         // arbitrary strings: value or error; a value must survive its own textual form
         let parts = ["prefix", "exact", "hex", "utf8", ":", "::", "zz", "0a", "ff", "é", "", "Prefix", " "];
         let s: String = (0..rng.below(6)).map(|_| *rng.pick(&parts)).collect::<Vec<_>>().join(if rng.chance(1, 2) { ":" } else { "" });
